@@ -1,3 +1,4 @@
 import BlackItModel
 import BlackIt.Lemmas.Snap
 import BlackIt.Properties.C17
+import BlackIt.Properties.C15
